@@ -300,6 +300,12 @@ def parseShown (tok : String) : Option C07.Shown :=
     | none, _ => none
   | _ => none
 
+/-- elements of a record that only aggregateRecords (the statistics update) reads -/
+def statsOnlyElems : List String :=
+  ["packetTotalCount", "packetDeltaCount", "octetTotalCount", "octetDeltaCount", "reversePacketTotalCount",
+   "reversePacketDeltaCount", "reverseOctetTotalCount", "reverseOctetDeltaCount", "tcpState", "flowEndReason",
+   "flowEndSeconds", "flowStartSeconds"]
+
 /-- `chk aggc <op> | <impl obs>`: the correlation specification (Spec.C07) on the implementation's trace -/
 def chkAggC (t : C07.Tracker) (a : List String) : C07.Tracker × String :=
   let (op, obs) := splitBar a
@@ -309,7 +315,18 @@ def chkAggC (t : C07.Tracker) (a : List String) : C07.Tracker × String :=
   if t.off then (t, "na")
   else match op with
   | "rec" :: rest =>
-    if hasOmit rest then ({ t with off := true }, "na")
+    if hasOmit rest then
+      -- a record whose template lacks elements that only the STATISTICS update reads (the counters, tcpState, the end
+      -- reason, the times): for a flow that is already held, correlation comes first in addOrUpdateRecordInMap, so both
+      -- sides have been seen and the correlate fields are merged whether or not the statistics update then refuses the
+      -- record; a refused record for a key that is not held creates nothing. Anything else leaves the domain.
+      let names := ((rest.getLast?.getD "").drop 5).toString.splitOn ","
+      if names.all (fun n => statsOnlyElems.contains n) then
+        match parseRecA rest.dropLast, obs with
+        | some r, ["ok"] => (t.onRecord r, "holds")
+        | some r, ["err"] => ((if (t.find r.key).isSome then t.onRecord r else t), "holds")
+        | _, _ => ({ t with off := true }, "na")
+      else ({ t with off := true }, "na")
     else match parseRecA rest, obs with
     | some r, ["ok"] => (t.onRecord r, "holds")
     | _, _ => (t, "fails record-refused")
